@@ -3,7 +3,7 @@ CONSTANT O = {}
 CONSTANT CtxIds = {1}
 CONSTANT Cfg <- CfgDef
 CONSTANT Packets <- PacketsDef
-CONSTANT EidVals = {0, 7}
+CONSTANT EidVals = {2, 7}
 CONSTANT UuidVals <- UuidValsDef
 INVARIANT InvC13
 INVARIANT InvC13Resp
